@@ -147,7 +147,7 @@ namespace
     for(auto& f : v.fails)
     {
       std::string k = rekey ? rekey(f.first, f.second, std::string()) : std::string();
-      c.fail(k.empty() ? key + " :: " + f.first : k, f.second);
+      c.fail(k.empty() ? key + " :: " + f.first : k, k.empty() ? f.second : "[" + f.first + "] " + f.second);
     }
   }
 
@@ -181,7 +181,7 @@ namespace
           while(std::getline(es, ln) && n < 6) { if(ln.find("ERROR") != std::string::npos || ln.find("runtime error") != std::string::npos || ln.find("Message") != std::string::npos || ln.find("Function") != std::string::npos || ln.find("FATAL") != std::string::npos || ln.find("    #0") != std::string::npos || ln.find("    #1") != std::string::npos) { cause += printable(ln, 260) + " / "; ++n; } }
         }
         std::string k = rekey ? rekey(kind, std::string(), g_log.crash_stderr) : std::string();
-        c.fail(k.empty() ? key + " :: " + kind : k, std::string("parser died with ") + (sig > 0 ? signame(sig) : "exit code") + " (" + itos_(sig) + ") on: " + what() + " | stderr: " + cause);
+        c.fail(k.empty() ? key + " :: " + kind : k, std::string(k.empty() ? "" : "[" + kind + "] ") + std::string("parser died with ") + (sig > 0 ? signame(sig) : "exit code") + " (" + itos_(sig) + ") on: " + what() + " | stderr: " + cause);
         return;
       }
       // no verdict yet: fork a runner child that starts with this case
@@ -208,7 +208,9 @@ namespace
   }
 
   // ------------------------------------------------------------------------------------------------
-  // Known defect classes that the coordinator recorded as findings (not repaired). A failing case is filed under the
+  // Known defect classes that the coordinator recorded as findings (not repaired). The key of a class carries no " :: "
+  // because the runner cuts the case key of a known_findings.txt line at the first " :: "; the outcome kind
+  // (crash / accepted / rewrite-rejected) is part of the message. A failing case is filed under the
   // fixed key of a class only if BOTH hold: (a) an independent analysis of the mutated *text* shows that it is an
   // instance of the class, (b) the observed failure carries the signature of that defect (function name in the
   // sanitizer / assertion output of the crashed child, or the kind of the failure). Everything else keeps its own key.
@@ -358,25 +360,25 @@ namespace
       const Diag d = diagnose(text);
       if(kind == "crash")
       {
-        if(d.f3 && err.find("AttributeSet") != std::string::npos && err.find("ASSERTION FAILED") != std::string::npos) return "known-F3 attribute dim outside int range :: crash";
+        if(d.f3 && err.find("AttributeSet") != std::string::npos && err.find("ASSERTION FAILED") != std::string::npos) return "known-F3 attribute dim outside int range";
         // the defect shows inside MeshNodeLinker::execute -> MeshPart::deduct_topology (IndexSetFiller or the index calculator fed by it)
         if((d.f4_range || d.f4_closure) && err.find("MeshNodeLinker") != std::string::npos &&
           (err.find("IndexSetFiller") != std::string::npos || err.find("IndexTree") != std::string::npos || err.find("IndexCalculator") != std::string::npos))
-          return "known-F4 unchecked mapping target index :: crash";
-        if(d.f5 && err.find("Bezier") != std::string::npos && (err.find("write") != std::string::npos)) return "known-F5 bezier points/params block count :: crash";
-        if(d.f8 && err.find("is shared by cells") != std::string::npos) return "known-F8 non-manifold SurfaceMesh triangles :: crash";
+          return "known-F4 unchecked mapping target index";
+        if(d.f5 && err.find("Bezier") != std::string::npos && (err.find("write") != std::string::npos)) return "known-F5 bezier points/params block count";
+        if(d.f8 && err.find("is shared by cells") != std::string::npos) return "known-F8 non-manifold SurfaceMesh triangles";
         return std::string();
       }
       if(kind == "accepted")
       {
-        if(reason == 4 && d.f4_range) return "known-F4 unchecked mapping target index :: accepted";
-        if(reason == 5 && d.f5) return "known-F5 bezier points/params block count :: accepted";
+        if(reason == 4 && d.f4_range) return "known-F4 unchecked mapping target index";
+        if(reason == 5 && d.f5) return "known-F5 bezier points/params block count";
         return std::string();
       }
       if(kind == "rewrite-rejected")
       {
-        if(d.f4_closure && msg.find("Index out of bounds") != std::string::npos) return "known-F4 unchecked mapping target index :: rewrite-rejected";
-        if(d.f5 && (msg.find("<Bezier") != std::string::npos)) return "known-F5 bezier points/params block count :: rewrite-rejected";
+        if(d.f4_closure && msg.find("Index out of bounds") != std::string::npos) return "known-F4 unchecked mapping target index";
+        if(d.f5 && (msg.find("<Bezier") != std::string::npos)) return "known-F5 bezier points/params block count";
         return std::string();
       }
       return std::string();
